@@ -159,6 +159,7 @@ struct KeyRun<'a, C: KeyColl> {
     is_list_variant: bool,
     tmax: i64,
     last_stored: usize,
+    inserted_since_clear: usize,
 }
 
 enum Step {
@@ -192,6 +193,7 @@ pub fn run_key<C: KeyColl>(case: &Case, rc: &RunCfg) -> Outcome {
         is_list_variant: !C::IS_TREE,
         tmax: case.get_i64("Tmax", i64::MAX),
         last_stored: 0,
+        inserted_since_clear: 0,
     };
     if let Some(c) = r.coll.as_ref() {
         if let Some(s) = c.snap() {
@@ -266,7 +268,9 @@ impl<'a, C: KeyColl> KeyRun<'a, C> {
     }
 
     fn budget(&self) -> u64 {
-        budget_for(self.model.entries.len() + 8)
+        // upper bound of what can be physically stored: everything inserted since the last clear
+        // (one operation may lazily remove all of it)
+        budget_for(self.inserted_since_clear + 8)
     }
 
     fn pre_phys(&mut self, i: usize) -> Option<Phys> {
@@ -640,6 +644,7 @@ impl<'a, C: KeyColl> KeyRun<'a, C> {
         let exp = t.saturating_add(d);
         let serial = self.next_serial();
         let key = XKey::new(k, exp, serial);
+        self.inserted_since_clear += 1;
         trace!(self, "#{} insert k={} exp={} val={} at t={}", i, k, exp, serial, t);
         if d == 0 {
             self.out.class("ins_exp_eq_time");
@@ -1003,6 +1008,7 @@ impl<'a, C: KeyColl> KeyRun<'a, C> {
         trace!(self, "#{} clear(); clock {} -> {}", i, self.clock, newclock);
         self.clock = newclock;
         self.model = KModel::default();
+        self.inserted_since_clear = 0;
         if self.rc.obs(12) {
             self.out.observations += 1;
             let coll = self.coll.as_ref().unwrap();
@@ -1060,7 +1066,7 @@ impl<'a, C: KeyColl> KeyRun<'a, C> {
         }
         let expected: Vec<u64> = self.model.live_sorted(t).iter().map(|e| e.serial).collect();
         let coll = self.coll.take().unwrap();
-        let budget = budget_for(stored_n + 8) * 4 + 64 * stored_n as u64;
+        let budget = budget_for(stored_n.max(self.inserted_since_clear) + 8) * 4 + 64 * stored_n.max(self.inserted_since_clear) as u64;
         let (r, calls, _) = lib_call(None, budget, false, move || coll.into_ordered_vec(t));
         self.out.callbacks.push(calls);
         let got = match r {
@@ -1161,6 +1167,7 @@ impl<'a, C: KeyColl> KeyRun<'a, C> {
                 return self.on_call_err(i, e, &[], "insert (bulk)");
             }
             self.model.entries.push(MEntry { k, exp, serial: serial as u64 });
+            self.inserted_since_clear += 1;
         }
         if (self.u as i64) < n {
             self.u = n as i32;
